@@ -489,11 +489,20 @@ class BuiltinMixin:
         raise Unsupported(f"len of {v.ty}")
 
     def dict_size(self, d, st):
-        f = z3.Function("dict_size_" + elem_sort_name(self.dict_vty(d) or JV), self.dict_map(d, st).sort(), I)
+        vty = self.dict_vty(d) or JV
         m = self.dict_map(d, st)
+        f = z3.Function("dict_size_" + elem_sort_name(vty), m.sort(), I)
+        key = "dict_size_" + elem_sort_name(vty)
+        if key not in getattr(self, "_global_axioms", set()):
+            # definitional: size is non-negative and zero exactly for the empty map (global background fact)
+            if not hasattr(self, "_global_axioms"):
+                self._global_axioms = set()
+            self._global_axioms.add(key)
+            mm = z3.Const("m!ds", m.sort())
+            self.axioms.append(z3.ForAll([mm], z3.And(f(mm) >= 0, (f(mm) == 0) == (mm == self.empty_map(vty))), patterns=[f(mm)]))
         n = f(m)
         st.assume(n >= 0)
-        st.assume((n == 0) == (m == self.empty_map(self.dict_vty(d) or JV)))
+        st.assume((n == 0) == (m == self.empty_map(vty)))
         return n
 
     def x_bi_isinstance(self, args, kw, st, node):
@@ -683,6 +692,8 @@ class BuiltinMixin:
     # -- millisecond alignment (specification vocabulary; single modulus keeps the arithmetic simple) ----
     def x_bi_ms_aligned(self, args, kw, st, node):
         v = args[0]
+        if v.ty.name == "Opt":
+            v = self._inner(v)
         if v.ty not in (DT, TD):
             raise Unsupported(f"ms_aligned({v.ty})")
         off = v.x.get("off", 0) if v.ty == DT else 0
@@ -1082,6 +1093,20 @@ class BuiltinMixin:
     def _re_args(self, recv, st):
         return st.read("re.Pattern.pattern", S, recv.t), st.read("re.Pattern.flags", I, recv.t)
 
+    def m_Obj_copy(self, recv, args, kw, st, node):
+        """dict.copy() on a record object: a plain dict with the same (constant) keys."""
+        cls = recv.ty.args[0]
+        cd = CLASSDEFS.get(cls)
+        if not (cd and cd.get("record")):
+            raise Unsupported(f"copy on {recv.ty}")
+        d = {}
+        for k, ft in cd["fields"].items():
+            fty = parse_type(ft)
+            if self.under_construction(recv, st):
+                st.raise_if(z3.Not(st.read(f"{cls}.{k}!has", B, recv.t)), "KeyError")
+            d[k] = from_sort_term(st.read(f"{cls}.{k}", sort_of(fty), recv.t), fty)
+        return Val(Ty("SDict"), d)
+
     def m_Obj_get(self, recv, args, kw, st, node):
         """dict.get on a record object (constant key)."""
         cls = recv.ty.args[0]
@@ -1167,8 +1192,11 @@ class BuiltinMixin:
         x = dict(recv.x)
         x["off"] = 0
         x["aware"] = True
-        if recv.x.get("aware", True) is not True:
-            raise Unsupported("astimezone on possibly-naive datetime")
+        aware = recv.x.get("aware", True)
+        if aware is not True:
+            # astimezone() on a naive datetime would consult the machine's local zone: must be unreachable
+            st.raise_if(z3.Not(aware) if not isinstance(aware, bool) else z3.BoolVal(True), "NaiveDatetime",
+                        getattr(node, "lineno", None))
         return Val(DT, recv.t, **x)
 
     def m_datetime_isoformat(self, recv, args, kw, st, node):
@@ -1194,6 +1222,57 @@ class BuiltinMixin:
             else:
                 raise Unsupported(f"datetime.replace({k}=)")
         return Val(DT, t, **x)
+
+    def m_datetime_utcoffset(self, recv, args, kw, st, node):
+        off = recv.x.get("off", 0)
+        aware = recv.x.get("aware", True)
+        offt = z3.IntVal(off) if isinstance(off, int) else off
+        if aware is True:
+            return Val(TD, offt)
+        srt = opt(I)
+        return Val(OptT(TD), z3.If(aware, srt.some(offt), srt.none) if not isinstance(aware, bool) else srt.none)
+
+    def x_iso8601_parse_date(self, args, kw, st, node):
+        """A-ISO: returns the aware datetime the ISO-8601 text denotes (whole-minute offset); A-RT1: parsing the
+        isoformat() of a datetime gives that datetime back."""
+        v = args[0]
+        self.used_assumptions.add("A-ISO")
+        if v.ty == STR and "iso_of" in v.x:
+            self.used_assumptions.add("A-RT1")
+            src = v.x["iso_of"]
+            return Val(DT, src.t, off=src.x.get("off", 0), aware=True)
+        s_ = self.as_str(v, st, getattr(node, "lineno", None))
+        inst = z3.Function("iso_instant", S, I)(s_.t)
+        off = z3.Function("iso_offset", S, I)(s_.t)
+        st.assume(off % 60000000 == 0)
+        st.spawned.append(self._parse_error_state(st, node))
+        return Val(DT, inst, off=off, aware=True)
+
+    def _parse_error_state(self, st, node):
+        r = st.copy()
+        r.pc = st.hyp() + [fresh("iso_parse_error", B)]
+        r.guards = []
+        r.status = "raise"
+        r.exc = "ParseError"
+        r.exc_site = getattr(node, "lineno", None)
+        return r
+
+    def x_bi_parse_date(self, args, kw, st, node):
+        r = self.x_iso8601_parse_date(args, kw, st, node)
+        st.spawned = [x for x in st.spawned if x.exc != "ParseError"] if st.spec else st.spawned
+        return r
+
+    def x_bi_json_type(self, args, kw, st, node):
+        """JSON Schema type name of a value, by its static type (specification only)."""
+        ty = args[0].ty
+        name = {"str": "string", "float": "number", "int": "integer", "bool": "boolean", "None": "null",
+                "Dict": "object", "SDict": "object", "List": "array", "Obj": "object"}.get(ty.name)
+        if name is None:
+            name = "opt:" + repr(ty)
+        return mk_str(name)
+
+    def x_json_dumps(self, args, kw, st, node):
+        return Val(STR, fresh("json", S), json_of=args[0])
 
     def m_datetime_timestamp(self, recv, args, kw, st, node):
         return Val(FLOAT, z3.ToReal(recv.t) / US, ts_of=recv.t)
